@@ -5,8 +5,30 @@
    the real functions; an argument that is not in a table gets a value no real result
    equals, so a model that asks for something the implementation did not compute shows up
    as a mismatch. *)
+From Coq Require Export Uint63.
 From Goloop Require Export lib.Bytes Model_Rlp Model_BlockCodec.
 Open Scope N_scope.
+
+(* Long byte strings are written by the harness as (pw n (W8 w1 .. w8 (W8 .. WE))):
+   n bytes, 7 per 63-bit word, big-endian, the last used word right-aligned, padded with
+   zero words — read much faster than a list of numerals.  Case files only. *)
+Inductive wl := WE | W8 (a b c d e f g h : int) (r : wl).
+Fixpoint wl_words (l : wl) : list int :=
+  match l with
+  | WE => []
+  | W8 a b c d e f g h r => a :: b :: c :: d :: e :: f :: g :: h :: wl_words r
+  end.
+Fixpoint words_bytes (ws : list int) (remaining : nat) : bytes :=
+  match ws with
+  | [] => []
+  | w :: r =>
+      let v := Z.to_N (Uint63.to_Z w) in
+      if Nat.leb remaining 7 then be_bytes remaining v
+      else N.land (N.shiftr v 48) 255 :: N.land (N.shiftr v 40) 255 :: N.land (N.shiftr v 32) 255
+           :: N.land (N.shiftr v 24) 255 :: N.land (N.shiftr v 16) 255 :: N.land (N.shiftr v 8) 255
+           :: N.land v 255 :: words_bytes r (remaining - 7)
+  end.
+Definition pw (n : int) (l : wl) : bytes := words_bytes (wl_words l) (Z.to_nat (Uint63.to_Z n)).
 
 Record env := {
   e_H : list (bytes * bytes);
